@@ -357,10 +357,10 @@ fn check_prog(src: &str, stdin: &[u8], origin: &str) -> Outcome {
         ($tag:expr, $args:expr, $stdin:expr, $merged:expr) => {
             match run_cli(&s, $tag, &os($args), $stdin, $merged) {
                 Ok(r) => r,
-                Err(RunErr::Timeout) => return Outcome::discard("cli_timeout"),
+                Err(RunErr::Timeout) => return Outcome::discard_env("cli_timeout"),
                 Err(RunErr::Spawn(e)) => {
                     eprintln!("C20: cannot run the tool: {}", e);
-                    return Outcome::discard("cli_spawn_failed");
+                    return Outcome::discard_env("cli_spawn_failed");
                 }
             }
         };
@@ -474,8 +474,8 @@ fn check_usage(args: &[String], kind: &str) -> Outcome {
         .collect();
     let r = match run_cli(&s, "usage", &real, b"", false) {
         Ok(r) => r,
-        Err(RunErr::Timeout) => return Outcome::discard("cli_timeout"),
-        Err(RunErr::Spawn(_)) => return Outcome::discard("cli_spawn_failed"),
+        Err(RunErr::Timeout) => return Outcome::discard_env("cli_timeout"),
+        Err(RunErr::Spawn(_)) => return Outcome::discard_env("cli_spawn_failed"),
     };
     // the statement asks for a non-zero exit status, nothing more: a panic (status 101) or a signal is
     // recorded as a label, not judged
